@@ -261,3 +261,94 @@ def opentherm_ids_exhaustive(seed, n):
     finally:
         logging.disable(logging.NOTSET)
     return {"evaluations": evals, "failures": fails}
+
+
+# ---- mode x until x duration: refused, or faithful -------------------------------------------------------
+SYS_NAMES = {"00": "auto", "01": "heat_off", "02": "eco_boost", "03": "away", "04": "day_off", "05": "day_off_eco", "06": "auto_with_reset", "07": "custom"}
+ZON_NAMES = {"00": "follow_schedule", "01": "advanced_override", "02": "permanent_override", "03": "countdown_override", "04": "temporary_override"}
+
+
+def spelled(name, table):
+    """A mode in any of the three spellings the constructors take: int, two hex digits, the name."""
+    code = sym_choice(name, sorted(table))
+    how = sym_choice(name + "_spelled_as", ["int", "hex", "name"])
+    return code, {"int": int(code, 16), "hex": code, "name": table[code]}[how]
+
+
+def maybe_until(name):
+    return when(name) if sym_bool(name + "_given") else None
+
+
+def until_text(t):
+    return t.isoformat(timespec="seconds")
+
+
+@harness("C03", cases=[(" W|2E04",), (" W|2349",), (" W|1F41",)], budget_s=600, subst={H.hex_to_str: hex_to_str_callsite, **TEMP_CODEC})
+def mode_arguments_are_refused_or_faithful(key):
+    """set_system_mode / set_zone_mode / set_dhw_mode for EVERY combination of mode (spelled as an int, as
+    hex digits or by name, or left out), until (given or not), duration (left out, 0, or any minutes) and
+    setpoint / active (given or not) -- inside and outside the documented domain: the call is refused with an
+    error, or it yields a W of the registered code that the library's own decoder accepts and that decodes to
+    the mode, the until, the duration and the setpoint / active that were asked for."""
+    verb, code = key.split("|")
+    until = maybe_until("until")
+    if key == " W|2E04":
+        want, mode = spelled("system_mode", SYS_NAMES)
+        c = outcome(CODE_API_MAP[key], CTL, mode, until=until)
+        duration, names = None, SYS_NAMES
+        target_key = target = None
+    else:
+        if sym_bool("mode_given"):
+            want, mode = spelled("mode", ZON_NAMES)
+        else:
+            want = mode = None
+        dk = sym_choice("duration_kind", ["none", "zero", "minutes"])
+        duration = {"none": None, "zero": 0}.get(dk, sym_int("duration", 1, 1215) if dk == "minutes" else None)
+        names = ZON_NAMES
+        if key == " W|2349":
+            target_key, target = "setpoint", (grid_temp("sp", 500, 3500) if sym_bool("setpoint_given") else None)
+            c = outcome(CODE_API_MAP[key], CTL, zone_idx(), mode=mode, setpoint=target, until=until, duration=duration)
+        else:
+            target_key, target = "active", (sym_bool("active") if sym_bool("active_given") else None)
+            c = outcome(CODE_API_MAP[key], CTL, mode=mode, active=target, until=until, duration=duration)
+    if not c.ok:
+        cover("refused")
+        return
+    cover("accepted")
+    cmd = c.value
+    check(And(cmd.verb == verb, cmd.code == code), "the command has the verb and code it is registered under")
+    m = outcome(decode_cmd, str(cmd))
+    check(m.ok, "whatever arguments were accepted, the library's own decoder accepts the frame")
+    if not m.ok:
+        return
+    p = m.value.payload
+    if want is not None:
+        got = p.get("system_mode" if key == " W|2E04" else "mode")
+        if key != " W|2E04" and want == "04" and until is None:
+            check(got in (names["04"], names["01"]), "a temporary override without an until is sent as that or as an advanced override")
+        else:
+            check(got == names[want], "the decoded mode is the mode asked for")
+    if until is not None:
+        check(p.get("until") == until_text(until), "an until that was accepted is the until on the wire")
+    else:
+        check(p.get("until") is None, "no until was asked for: none is on the wire")
+    if duration is not None:
+        check(p.get("duration") == duration, "a duration that was accepted is the duration on the wire")
+    else:
+        check(p.get("duration") is None, "no duration was asked for: none is on the wire")
+    if target is not None and target_key is not None and p.get("mode") != names["00"]:
+        check(p.get(target_key) == target, "the setpoint / active state that was accepted is the one on the wire")
+
+
+def kf_dhw_countdown(inp):
+    """set_dhw_mode in countdown mode (mode 03, however spelled; or no mode but a duration): the constructor
+    writes the minutes, the 1F41 schema / parser only admit FFFFFF there."""
+    m, given, dk = inp.get("mode"), inp.get("mode_given"), inp.get("duration_kind")
+    return Or(False if m is None else m == "03", False if given is None or dk is None else And(Not(given), dk == "minutes"))
+
+
+def kf_dhw_temporary_without_until(inp):
+    """set_dhw_mode in temporary mode (04) without an until: _normalise_until means to fall back to the
+    advanced override but its assignment is local, so a 6-byte frame with mode 04 goes out."""
+    m, u = inp.get("mode"), inp.get("until_given")
+    return False if m is None or u is None else And(m == "04", Not(u))
